@@ -10,10 +10,10 @@ import (
 // C06: required options and argument counts are enforced.
 
 func c06Cfg() *DeclCfg {
-	types := []TypeSpec{{K: KString}, {K: KBool}, {K: KBool}, {K: KInt}, {K: KString, W: WSlice}, {K: KBool, W: WSlice}, {K: KFloat64}, {K: KString, W: WMap, MapKey: KString}, {K: KString, W: WPtr}, {K: KBool, W: WPtr}}
+	types := []TypeSpec{{K: KString}, {K: KBool}, {K: KBool}, {K: KInt}, {K: KString, W: WSlice}, {K: KBool, W: WSlice}, {K: KFloat64}, {K: KString, W: WMap, MapKey: KString}, {K: KString, W: WPtr}, {K: KBool, W: WPtr}, {W: WFunc0}, {K: KString, W: WFunc1}, {K: KInt, W: WFunc1Err}}
 	return &DeclCfg{
 		MaxDepth: 3, MaxFan: 2, PCmds: 70, Types: types, OptsMin: 1, OptsMax: 3, SubGroupsMax: 1, NestMax: 2,
-		PNamespace: 30, PShortOnly: 20, PLongOnly: 20, PRequired: 45, PDefault: 8,
+		PNamespace: 30, PShortOnly: 20, PLongOnly: 20, PRequired: 45, PDefault: 8, PProgAttr: 40, POptional: 15,
 		PPos: 45, PosMax: 4, PRest: 50, PPosReq: 60, PExec: 60, PByTag: 50, PSubOptional: 30, PAliases: 20,
 		ParserOpts: []flags.Options{0, flags.PassDoubleDash, flags.HelpFlag | flags.PassDoubleDash, flags.HelpFlag},
 		PosTypes:   []TypeSpec{{K: KString}},
